@@ -4,8 +4,13 @@
 (* (the sequential driver drv_db): tables, write transactions with private *)
 (* working copies, atomic publish at Commit, frozen snapshots, watch        *)
 (* channels, change iterators with the graveyard, table initializers       *)
-(* and table registration.  The interleaving of several goroutines is the  *)
-(* subject of DBImpl.tla; here every action is one API call.               *)
+(* and table registration, plus the two features of the library that run   *)
+(* goroutines of their own on top of change iterators: Observable (a       *)
+(* stream of changes) and Derive (a table kept as the image of another     *)
+(* one).  The interleaving of several goroutines is the subject of         *)
+(* DBImpl.tla, the marking/collection algorithm behind the iterators that  *)
+(* of Graveyard.tla; here every action is one API call (or one round of a  *)
+(* library goroutine observed at quiescence).                              *)
 (*                                                                         *)
 (*  root       t -> Table value            the committed database          *)
 (*  wtx[x]     [tabs, work, base, st]      write transactions              *)
